@@ -25,6 +25,7 @@ CHECKS = {
     "C06": "vlib.checks.c06",
     "C07": "vlib.checks.c07",
     "C08": "vlib.checks.c08",
+    "C09": "vlib.checks.c09",
     "C10": "vlib.checks.c10",
     "C11": "vlib.checks.c11",
     "C12": "vlib.checks.c12",
